@@ -699,8 +699,17 @@ class DateTime(datetime.datetime, Date):
         Remove timedelta duration from the instance.
         """
         if isinstance(delta, pendulum.Duration):
+            # Same as adding the negated duration: days and weeks follow
+            # the wall clock instead of being counted as elapsed seconds
             return self.subtract(
-                years=delta.years, months=delta.months, seconds=delta._total
+                years=delta.years,
+                months=delta.months,
+                weeks=delta.weeks,
+                days=delta.remaining_days,
+                hours=delta.hours,
+                minutes=delta.minutes,
+                seconds=delta.remaining_seconds,
+                microseconds=delta.microseconds,
             )
 
         return self.subtract(seconds=delta.total_seconds())
